@@ -577,7 +577,7 @@ func (s *muxerStream) generateAndCacheInitFile() error {
 	for _, track := range s.tracks {
 		init.Tracks = append(init.Tracks, &fmp4.InitTrack{
 			ID:        trackID,
-			TimeScale: fmp4TimeScale(track.Codec),
+			TimeScale: uint32(track.ClockRate),
 			Codec:     codecs.ToFMP4(track.Codec),
 		})
 		trackID++
